@@ -66,9 +66,28 @@ class Reporter:
         """Run one rule.  An analysis error inside it (an anchor that vanished, an idiom the rule does not know) is
         kept and does not stop the other rules: when those report a violation, that is the verdict; when nothing
         is violated the run still fails as ANALYSIS-ERROR (exit 2) — an unanalysable rule never counts as a pass."""
+        def attachments():
+            # clauses of another property's check attached here (rules/shared.py Retag): sub-rules of that check which could not
+            # be analysed count only when nothing of the attachment is left
+            for a in list(args) + list(kw.values()):
+                errs = getattr(a, "_errors", None)
+                if errs:
+                    if getattr(a, "_n", 0) == 0:
+                        self.deferred.extend(f"{getattr(fn, '__name__', fn)} (attached): {e_}" for e_ in errs)
+                    else:
+                        self.note(f"attached {getattr(fn, '__name__', fn)}: {len(errs)} sub-rule(s) not analysable on this tree (reported by the check they belong to); {a._n} attached obligation(s) judged")
+                    errs.clear()
+
         try:
-            return fn(*args, **kw)
+            r = fn(*args, **kw)
+            attachments()
+            return r
         except AnalysisError as e:
+            attachments()
+            # the attached check itself gave up half-way: an error here only if nothing of it was judged
+            if any(getattr(a, "_n", 0) > 0 for a in list(args) + list(kw.values()) if hasattr(a, "_errors")):
+                self.note(f"attached {getattr(fn, '__name__', fn)} stopped early: {e}")
+                return None
             self.deferred.append(f"{getattr(fn, '__name__', fn)}: {e}")
             return None
         except Exception as e:  # noqa: BLE001 — a rule tripping over a shape it does not expect is an analysis error of that rule
